@@ -319,7 +319,7 @@ func (this *RegisterAssetParam) Deserialization(source *common.ZeroCopySource) e
 	if eof {
 		return fmt.Errorf("RegisterAssetParam deserialize length of asset map array error")
 	}
-	assetMap := make(map[uint64][]byte, l)
+	assetMap := make(map[uint64][]byte)
 	for i := uint64(0); i < l; i++ {
 		k, eof := source.NextVarUint()
 		if eof {
@@ -336,7 +336,7 @@ func (this *RegisterAssetParam) Deserialization(source *common.ZeroCopySource) e
 	if eof {
 		return fmt.Errorf("RegisterAssetParam deserialize length of lock proxy map array error")
 	}
-	lockProxyMap := make(map[uint64][]byte, l)
+	lockProxyMap := make(map[uint64][]byte)
 	for i := uint64(0); i < m; i++ {
 		k, eof := source.NextVarUint()
 		if eof {
@@ -396,7 +396,7 @@ func (this *AssetBind) Deserialization(source *common.ZeroCopySource) error {
 	if eof {
 		return fmt.Errorf("RegisterAssetParam deserialize length of asset map array error")
 	}
-	assetMap := make(map[uint64][]byte, l)
+	assetMap := make(map[uint64][]byte)
 	for i := uint64(0); i < l; i++ {
 		k, eof := source.NextVarUint()
 		if eof {
@@ -413,7 +413,7 @@ func (this *AssetBind) Deserialization(source *common.ZeroCopySource) error {
 	if eof {
 		return fmt.Errorf("RegisterAssetParam deserialize length of lock proxy map array error")
 	}
-	lockProxyMap := make(map[uint64][]byte, l)
+	lockProxyMap := make(map[uint64][]byte)
 	for i := uint64(0); i < m; i++ {
 		k, eof := source.NextVarUint()
 		if eof {
